@@ -30,6 +30,8 @@ int next_ord = 0;
 int step_count = 0;
 std::set<int> spurious_steps;
 bool trace_on = false;
+int node_base = 0;           // ordinals >= node_base are queue nodes N1, N2, ...
+uint64_t canon_mask = 0;     // when non-zero: pointer field of logged values is replaced by the node number
 
 const char *
 mo_str(std::memory_order mo)
@@ -87,8 +89,19 @@ loc_name(const void *addr)
   auto it = names.find(addr);
   if (it != names.end()) return it->second;
   auto jt = ordinals.find(addr);
-  if (jt != ordinals.end()) return "N" + std::to_string(jt->second);
+  if (jt != ordinals.end()) return "N" + std::to_string(jt->second - node_base + 1);
   return "?";
+}
+
+uint64_t
+canon(uint64_t v)
+{
+  if (canon_mask == 0) return v;
+  const uint64_t p = v & canon_mask;
+  if (p == 0) return v;
+  auto jt = ordinals.find(reinterpret_cast<const void *>(p));
+  if (jt == ordinals.end()) return v | canon_mask;  // unknown address: all ones in the pointer field
+  return (v & ~canon_mask) | static_cast<uint64_t>(jt->second - node_base + 1);
 }
 
 void
@@ -163,7 +176,7 @@ log_op(OpK op, const void *addr, std::memory_order mo, std::memory_order mo_fail
 {
   if (my_tid < 0) return;
   std::unique_lock<std::mutex> lk(mu);
-  open_line(op_str(op), loc_name(addr), mo_str(mo), mo_str(mo_fail), rd, wr, ok);
+  open_line(op_str(op), loc_name(addr), mo_str(mo), mo_str(mo_fail), canon(rd), canon(wr), ok);
 }
 
 void
@@ -171,7 +184,11 @@ register_object(const void *addr)
 {
   if (!trace_on) return;
   std::unique_lock<std::mutex> lk(mu);
-  ordinals[addr] = next_ord++;
+  const int ord = next_ord++;
+  ordinals[addr] = ord;
+  if (my_tid >= 0 && vts[my_tid].line_open) {
+    vts[my_tid].line += " NA" + std::to_string(ord - node_base + 1);
+  }
 }
 
 void
@@ -179,7 +196,13 @@ unregister_object(const void *addr)
 {
   if (!trace_on) return;
   std::unique_lock<std::mutex> lk(mu);
-  ordinals.erase(addr);
+  auto it = ordinals.find(addr);
+  if (it != ordinals.end()) {
+    if (my_tid >= 0 && vts[my_tid].line_open) {
+      vts[my_tid].line += " NF" + std::to_string(it->second - node_base + 1);
+    }
+    ordinals.erase(it);
+  }
   names.erase(addr);
 }
 
@@ -262,6 +285,24 @@ current_tid()
   return my_tid;
 }
 
+void
+set_node_naming(int base, uint64_t ptr_mask)
+{
+  std::unique_lock<std::mutex> lk(mu);
+  node_base = base;
+  canon_mask = ptr_mask;
+}
+
+int
+live_nodes()
+{
+  std::unique_lock<std::mutex> lk(mu);
+  int n = 0;
+  for (auto &kv : ordinals)
+    if (kv.second >= node_base) ++n;
+  return n;
+}
+
 int
 steps_done()
 {
@@ -307,6 +348,7 @@ run(const std::vector<std::function<void()>> &bodies, const Options &opt)
   }
   int last = -1;
   int rr = 0;
+  long low_water = 0;
   std::string status = "ok";
   {
     std::unique_lock<std::mutex> lk(mu);
@@ -345,9 +387,14 @@ run(const std::vector<std::function<void()>> &bodies, const Options &opt)
             break;
           }
           case 3: {
-            if (change_points.count(step_count) && last >= 0) prio[last] = static_cast<long>(rng() % 900);
-            if (last >= 0 && vts[last].consecutive >= 8) prio[last] = static_cast<long>(rng() % 900);
-            long best = -1;
+            // demotion puts a thread below every other one (a spinning thread must not starve the rest)
+            if (change_points.count(step_count) && last >= 0) prio[last] = --low_water;
+            if (last >= 0 && vts[last].consecutive >= 8) {
+              prio[last] = --low_water;
+              vts[last].consecutive = 0;
+            }
+            long best = std::numeric_limits<long>::min();
+            pick = runnable[0];
             for (int r : runnable)
               if (prio[r] > best) {
                 best = prio[r];
